@@ -494,6 +494,79 @@ def run(ctx):
         fm = [c for c in f.calls() if c.name in ESCAPERS]
         ctx.ob("C02.S3.join_safe-escapes-unsafe-items", js, bool(fm), "", f.loc)
 
+    # ---- S3d: a buffer that is returned as safe is assembled from safe pieces only.  Where the argument of
+    # from_safe_string is a String the function itself appends to, every appended piece must be a constant, the
+    # result of an escaper / safe builder, or raw text taken under an is_safe() test of the value it comes from.
+    SAFE_BUILDERS = ("minijinja::filters::builtins::join::join_safe",)
+    APPENDERS = ("alloc::string::String::push_str", "alloc::string::String::push", "alloc::string::String::insert_str",
+                 "alloc::string::String::insert", "core::fmt::Write::write_str", "<alloc::string::String as core::fmt::Write>::write_str",
+                 "<alloc::string::String as core::ops::arith::AddAssign<&str>>::add_assign",
+                 "<alloc::string::String as core::iter::traits::collect::Extend<&'a str>>::extend")
+    thru = lambda k: 0 if k.name.endswith(("::deref", "::deref_mut", "::as_str", "::as_ref", "::borrow", "Try>::branch",
+                                           "::as_mut_str", "::into", "String::from", "::to_string", "::to_owned")) and k.name not in RAW_ACCESSORS else None
+    n3d = 0
+    for f in prog.fns.values():
+        if f.crate not in ("minijinja", "minijinja_contrib") or f.path in SAFE_MARKERS:
+            continue
+        if not (f.loc.f.endswith("filters.rs") or f.loc.f.endswith("filters/mod.rs") or f.loc.f.endswith("functions.rs")
+                or f.loc.f.endswith("globals.rs")):
+            continue
+        for sc in f.calls_to(SAFE):
+            bufs = set()
+            for o in flow.origins(f, sc.args[0]):
+                if o.kind == "call" and o.call.dest is not None and "p" not in o.call.dest:
+                    bufs.add(o.call.dest["l"])
+            # follow moves of the buffer (`let mut output = ok!(..)`): locals assigned from it by plain use
+            grew = True
+            while grew:
+                grew = False
+                for bb, i, st in f.all_stmts():
+                    if st["k"] == "assign" and "p" not in st["place"] and st["rv"]["k"] == "use":
+                        pl = op_place(st["rv"]["op"])
+                        if pl is not None and pl.get("l") in bufs and st["place"]["l"] not in bufs:
+                            bufs.add(st["place"]["l"])
+                            grew = True
+            for c in f.calls():
+                if c.name not in APPENDERS or len(c.args) < 2:
+                    continue
+                p0 = op_place(c.args[0])
+                if p0 is None or "p" in p0:
+                    continue
+                tgt = {d.rv["place"]["l"] for d in flow.whole_defs(f, p0["l"]) if d.kind == "stmt" and d.rv["k"] == "ref" and d.rv.get("mut")}
+                if not (tgt & bufs):
+                    continue
+                n3d += 1
+                piece = c.args[-1]
+                bad = []
+                under_safe = any(gg[0] == "call" and gg[1] in IS_SAFE and gg[2] is True for gg in flow.guard_facts(prog, f, c.bb))
+                thru2 = lambda k: 0 if (thru(k) == 0 or k.name.endswith(("Option::unwrap", "Option::expect", "Result::unwrap"))) else None
+                for o in flow.origins(f, piece, through_calls=thru2):
+                    if o.kind == "const":
+                        continue
+                    if o.kind == "call" and (o.call.name in ESCAPERS or o.call.name in SAFE_BUILDERS):
+                        continue
+                    if o.kind == "call" and o.call.name in RAW_ACCESSORS:
+                        # text of an escaper's result is escaped text
+                        if all(x.kind == "call" and x.call.name in ESCAPERS for x in flow.origins(f, o.call.args[0], through_calls=thru2)):
+                            continue
+                        recv = {x.key() for x in flow.origins(f, o.call.args[0])}
+                        tested = any(gg[0] == "call" and gg[1] in IS_SAFE and gg[2] is True and recv & {
+                            x.key() for x in flow.origins(f, gg[3].args[0])} for gg in flow.guard_facts(prog, f, c.bb))
+                        if tested:
+                            continue
+                        bad.append("raw text of a value not tested with is_safe() (%s)" % o.call.name.split("::")[-1])
+                    elif under_safe:
+                        continue        # text derived (trimmed, truncated ..) under an is_safe() test; direct raw
+                        # accessors of a value other than the tested one are caught above
+                    elif o.kind == "arg":
+                        bad.append("text of parameter %d" % o.arg)
+                    else:
+                        bad.append("text computed by %s outside any is_safe() test" % (o.call.name.split("::")[-1] if o.kind == "call" else o.kind))
+                ctx.ob("C02.S3.safe-buffer-gets-only-safe-pieces", "%s|%s" % (f.path, c.name.split("::")[-1]), not bad,
+                       "a String that is returned through from_safe_string is extended with %s: that piece reaches the "
+                       "output unescaped" % "; ".join(sorted(set(bad))), f.where(c.bb))
+    ctx.count("C02.S3d pieces appended to safe buffers", n3d)
+
     # ---- S5
     nf, nsets, nlo, nw = byte_sets(prog, "minijinja::utils::needs_html_escaping")
     hf, hsets, hlo, hw = byte_sets(prog, "<minijinja::utils::HtmlEscape<'_> as core::fmt::Display>::fmt")
